@@ -281,8 +281,23 @@ func VPH_C01_write_then_read() {
 	node := fs.addFileData("/d/x", append([]byte(nil), model...))
 	env := vpServer(fs, ExportOptions{TransferSize: 4, AttrCacheTimeout: 0})
 	h := env.handleFor("/d/x")
+	hd := env.handleFor("/d")
 	for s := 0; s < steps; s++ {
-		if vpBool("truncate") {
+		kind := vpChoose("mutation", 0, 2)
+		if kind == 2 {
+			// CREATE (UNCHECKED) of the existing file with an explicit size: the file is cut or
+			// zero-extended to that size, like SETATTR(size); without a size nothing would change
+			vpReach("create-with-size")
+			ns := vpChoose("createsize", 0, 3)
+			var b vpBuf
+			b.fh(hd).str("x").u32(0).sattr(&vpSattr{setSize: true, size: uint64(ns)})
+			rd := &vpRd{b: vpReplyBytes(env.call(NFSPROC3_CREATE, b.Bytes()))}
+			vpAssert(rd.u32() == NFS_OK, "create-existing-with-size-ok")
+			for len(model) < ns {
+				model = append(model, 0)
+			}
+			model = model[:ns]
+		} else if kind == 1 {
 			ns := vpChoose("newsize", 0, 3)
 			var b vpBuf
 			b.fh(h).sattr(&vpSattr{setSize: true, size: uint64(ns)}).u32(0)
